@@ -207,6 +207,8 @@ package lnwallet
 //@   site return nil: assert !isRestoredChan && msg.RemoteCommitTailHeight <= lt &&
 //@           (msg.RemoteCommitTailHeight == lt || wrap(msg.RemoteCommitTailHeight + 1, 64) == lt) &&
 //@           (msg.NextLocalCommitHeight == wrap(rtip + 1, 64) || msg.NextLocalCommitHeight == rtip) && msg.NextLocalCommitHeight > rt
+//@   site return ErrCannotSyncCommitChains: assert msg.RemoteCommitTailHeight > lt || isRestoredChan ||
+//@           msg.NextLocalCommitHeight > wrap(rtip + 1, 64) || (msg.NextLocalCommitHeight > rt && msg.NextLocalCommitHeight < rtip)
 //@   site return nil as insync: assert (msg.RemoteCommitTailHeight == lt && msg.NextLocalCommitHeight == wrap(rtip + 1, 64)) ==> len(result0) == 0
 //@   site call append nth 3: assert arg(0) == commitUpdates && retn(RemoteCommitChainTip, 1) == nil
 //@   site call append nth 4: assert lc.channelState.LastWasRevoke && arg(0) == commitUpdates && arg(1) == updates
